@@ -112,16 +112,19 @@ theorem mem_writeNodes {ps : List (InNode × Option NodeRow)} {nodes : List Node
 
 theorem needRight_eq (o : Option Key) (k : Key) : needRight o k = needOn o k := rfl
 
+theorem authGate {b : Bool} {e : Nat} (h : (b || !authEnt e) = true) (hd : b = false) : authEnt e = false := by
+  subst hd; simpa using h
+
 theorem nodeAccepted_sound {d : Defects} {s : Inst} {room : Nat} {n : InNode}
     (hs : n.sigOk = true) (h : nodeAccepted d s room (n, localRow s.nodes n.row.id) = true) :
     NodeOkD d s room n := by
   unfold nodeAccepted modelGate at h
   simp only [Bool.and_eq_true, decide_eq_true_eq, Bool.or_eq_true] at h
-  obtain ⟨⟨⟨hroom, hknown⟩, hconf⟩, hv⟩ := h
+  obtain ⟨⟨⟨⟨hroom, hknown⟩, hauth⟩, hconf⟩, hv⟩ := h
   unfold validateNode at hv
   simp only [hroom, Bool.and_eq_true, Bool.not_eq_true'] at hv
   obtain ⟨⟨hbig, hold⟩, hcan⟩ := hv
-  refine ⟨hs, hroom, hknown, ?_, hbig, canIn_iff.mp hcan, ?_, ?_⟩
+  refine ⟨hs, hroom, hknown, fun hd => authGate (by simpa using hauth) hd, ?_, hbig, canIn_iff.mp hcan, ?_, ?_⟩
   · rcases hconf with ⟨ha, hd⟩ | hc
     · exact Or.inr ⟨hd, ha⟩
     · exact Or.inl hc
@@ -501,8 +504,8 @@ theorem edgeAccepted_sound {d : Defects} {s : Inst} {room : Nat} {table : List E
     EdgeOkD d s room (table.find? (edgeKeyEq e.row)) e := by
   unfold edgeAccepted at h
   simp only [Bool.and_eq_true, Bool.or_eq_true] at h
-  obtain ⟨⟨hk, hsrc⟩, hcan⟩ := h
-  refine ⟨hs, hk, ?_, ?_⟩
+  obtain ⟨⟨⟨hk, hauth⟩, hsrc⟩, hcan⟩ := h
+  refine ⟨hs, hk, fun hd => authGate (by simpa using hauth) hd, ?_, ?_⟩
   · intro hd
     rcases hsrc with h | h
     · rw [hd] at h; cases h
@@ -605,8 +608,8 @@ theorem nodeDelAccepted_sound {d : Defects} {s : Inst} {room : Nat} {r : InNodeD
     (hs : r.sigOk = true) (h : nodeDelAccepted d s room r.entry = true) : NodeDelOkD d s room r := by
   unfold nodeDelAccepted at h
   simp only [Bool.and_eq_true, Bool.or_eq_true, decide_eq_true_eq] at h
-  obtain ⟨⟨⟨hk, hr⟩, he⟩, hcan⟩ := h
-  refine ⟨hs, ?_, hk, ?_, canIn_iff.mp hcan⟩
+  obtain ⟨⟨⟨⟨hk, hauth⟩, hr⟩, he⟩, hcan⟩ := h
+  refine ⟨hs, ?_, hk, fun hd => authGate (by simpa using hauth) hd, ?_, canIn_iff.mp hcan⟩
   · intro hd
     rcases hr with h | h
     · rw [hd] at h; cases h
@@ -691,8 +694,8 @@ theorem edgeDelAccepted_sound {d : Defects} {s : Inst} {room : Nat} {r : InEdgeD
     (hs : r.sigOk = true) (h : edgeDelAccepted d s room r.entry = true) : EdgeDelOkD d s room r := by
   unfold edgeDelAccepted at h
   simp only [Bool.and_eq_true, Bool.or_eq_true, decide_eq_true_eq] at h
-  obtain ⟨⟨⟨hk, hr⟩, he⟩, hcan⟩ := h
-  refine ⟨hs, ?_, hk, ?_, canIn_iff.mp hcan⟩
+  obtain ⟨⟨⟨⟨hk, hauth⟩, hr⟩, he⟩, hcan⟩ := h
+  refine ⟨hs, ?_, hk, fun hd => authGate (by simpa using hauth) hd, ?_, canIn_iff.mp hcan⟩
   · intro hd
     rcases hr with h | h
     · rw [hd] at h; cases h
@@ -968,7 +971,7 @@ theorem addEdgesLoop_eq_verdicts {d : Defects} {s : Inst} {room : Nat} {es : Lis
 
 theorem NodeOkD.none_ok {s : Inst} {room : Nat} {n : InNode} (h : NodeOkD Defects.none s room n) :
     NodeOk s room n := by
-  refine ⟨h.sig, h.inRoom, h.known, ?_, h.small, h.right, h.sameEntity rfl, ?_⟩
+  refine ⟨h.sig, h.inRoom, h.known, h.data rfl, ?_, h.small, h.right, h.sameEntity rfl, ?_⟩
   · rcases h.conforms with c | ⟨c, _⟩
     · exact c
     · cases c
@@ -980,22 +983,29 @@ theorem NodeOkD.none_ok {s : Inst} {room : Nat} {n : InNode} (h : NodeOkD Defect
 
 theorem EdgeOkD.none_ok {s : Inst} {room : Nat} {prev : Option EdgeRow} {e : InEdge}
     (h : EdgeOkD Defects.none s room prev e) : EdgeOk s room prev e :=
-  ⟨h.sig, h.known, h.source rfl, h.right⟩
+  ⟨h.sig, h.known, h.data rfl, h.source rfl, h.right⟩
 
 theorem NodeDelOkD.none_ok {s : Inst} {room : Nat} {r : InNodeDel} (h : NodeDelOkD Defects.none s room r) :
     NodeDelOk s room r :=
-  ⟨h.sig, h.inRoom rfl, h.known, h.sameEntity rfl, h.right⟩
+  ⟨h.sig, h.inRoom rfl, h.known, h.data rfl, h.sameEntity rfl, h.right⟩
 
 theorem EdgeDelOkD.none_ok {s : Inst} {room : Nat} {r : InEdgeDel} (h : EdgeDelOkD Defects.none s room r) :
     EdgeDelOk s room r :=
-  ⟨h.sig, h.inRoom rfl, h.known, h.source rfl, h.right⟩
+  ⟨h.sig, h.inRoom rfl, h.known, h.data rfl, h.source rfl, h.right⟩
 
 /-! ### guards that exclude the shapes the code does not check -/
 
-/-- the row does not rely on an absent JSON, and the local row it overwrites (if any) has the same
-    entity and is in a room -/
+/-- the local row it overwrites (if any) has the same entity -/
 def nodeGuard (s : Inst) (n : InNode) : Bool :=
-  (!n.jsonAbsent || n.conforms) &&
+  !authEnt n.row.ent &&
+  match localRow s.nodes n.row.id with
+  | some l => l.ent = n.row.ent
+  | none => true
+
+/-- the guard that was needed before /repo 37a7f03 and e73c9e7: moreover the row does not rely on an
+    absent JSON and the overwritten row is in a room -/
+def nodeGuardBeforeFixes (s : Inst) (n : InNode) : Bool :=
+  !authEnt n.row.ent && (!n.jsonAbsent || n.conforms) &&
   match localRow s.nodes n.row.id with
   | some l => l.ent = n.row.ent && l.room.isSome
   | none => true
@@ -1003,33 +1013,52 @@ def nodeGuard (s : Inst) (n : InNode) : Bool :=
 /-- the source row is a local row of the synchronised room and of the named entity; every
     reference with the same source, label and target (stored or in the batch) has the same author -/
 def edgeGuard (s : Inst) (room : Nat) (others : List EdgeRow) (e : InEdge) : Bool :=
-  edgeSourceOk s room e.row && others.all fun x => !edgeKeyEq e.row x || x.key = e.row.key
+  !authEnt e.row.srcEnt && edgeSourceOk s room e.row && others.all fun x => !edgeKeyEq e.row x || x.key = e.row.key
 
 def nodeDelGuard (s : Inst) (room : Nat) (r : InNodeDel) : Bool :=
-  r.entry.room = room &&
+  !authEnt r.entry.ent && r.entry.room = room &&
   match localRow s.nodes r.entry.id with
   | some l => l.ent = r.entry.ent
   | none => true
 
 def edgeDelGuard (s : Inst) (room : Nat) (r : InEdgeDel) : Bool :=
-  r.entry.room = room && edgeDelSourceOk s r.entry
+  !authEnt r.entry.srcEnt && r.entry.room = room && edgeDelSourceOk s r.entry
 
 theorem NodeOkD.guarded {d : Defects} {s : Inst} {room : Nat} {n : InNode} (h : NodeOkD d s room n)
+    (hj : d.jsonAbsentUnchecked = false) (hr : d.roomlessReplaceUnchecked = false)
     (g : nodeGuard s n = true) : NodeOk s room n := by
   unfold nodeGuard at g
+  simp only [Bool.and_eq_true, Bool.not_eq_true'] at g
+  obtain ⟨ga, g⟩ := g
+  refine ⟨h.sig, h.inRoom, h.known, ga, ?_, h.small, h.right, ?_, ?_⟩
+  · rcases h.conforms with c | ⟨c, _⟩
+    · exact c
+    · rw [hj] at c; cases c
+  · intro l hl
+    rw [hl] at g
+    simpa using g
+  · intro l hl
+    cases hroom : l.room with
+    | none => exact absurd hroom ((h.oldRoom l hl).1 hr)
+    | some r' => exact ⟨r', rfl, (h.oldRoom l hl).2 r' hroom⟩
+
+theorem NodeOkD.guardedBeforeFixes {d : Defects} {s : Inst} {room : Nat} {n : InNode} (h : NodeOkD d s room n)
+    (g : nodeGuardBeforeFixes s n = true) : NodeOk s room n := by
+  unfold nodeGuardBeforeFixes at g
   simp only [Bool.and_eq_true, Bool.or_eq_true, Bool.not_eq_true'] at g
-  refine ⟨h.sig, h.inRoom, h.known, ?_, h.small, h.right, ?_, ?_⟩
+  obtain ⟨⟨ga, g1⟩, g2⟩ := g
+  refine ⟨h.sig, h.inRoom, h.known, ga, ?_, h.small, h.right, ?_, ?_⟩
   · rcases h.conforms with c | ⟨_, c⟩
     · exact c
-    · rcases g.1 with g1 | g1
+    · rcases g1 with g1 | g1
       · rw [c] at g1; cases g1
       · exact g1
   · intro l hl
-    have := g.2; rw [hl] at this
+    have := g2; rw [hl] at this
     simp only [Bool.and_eq_true, decide_eq_true_eq] at this
     exact this.1
   · intro l hl
-    have := g.2; rw [hl] at this
+    have := g2; rw [hl] at this
     simp only [Bool.and_eq_true, decide_eq_true_eq] at this
     cases hr : l.room with
     | none => rw [hr] at this; exact absurd this.2 (by simp)
@@ -1038,8 +1067,8 @@ theorem NodeOkD.guarded {d : Defects} {s : Inst} {room : Nat} {n : InNode} (h : 
 theorem NodeDelOkD.guarded {d : Defects} {s : Inst} {room : Nat} {r : InNodeDel} (h : NodeDelOkD d s room r)
     (g : nodeDelGuard s room r = true) : NodeDelOk s room r := by
   unfold nodeDelGuard at g
-  simp only [Bool.and_eq_true, decide_eq_true_eq] at g
-  refine ⟨h.sig, g.1, h.known, ?_, h.right⟩
+  simp only [Bool.and_eq_true, decide_eq_true_eq, Bool.not_eq_true'] at g
+  refine ⟨h.sig, g.1.2, h.known, g.1.1, ?_, h.right⟩
   intro l hl
   have := g.2; rw [hl] at this
   simpa using this
@@ -1047,8 +1076,8 @@ theorem NodeDelOkD.guarded {d : Defects} {s : Inst} {room : Nat} {r : InNodeDel}
 theorem EdgeDelOkD.guarded {d : Defects} {s : Inst} {room : Nat} {r : InEdgeDel} (h : EdgeDelOkD d s room r)
     (g : edgeDelGuard s room r = true) : EdgeDelOk s room r := by
   unfold edgeDelGuard at g
-  simp only [Bool.and_eq_true, decide_eq_true_eq] at g
-  refine ⟨h.sig, g.1, h.known, ?_, h.right⟩
+  simp only [Bool.and_eq_true, decide_eq_true_eq, Bool.not_eq_true'] at g
+  refine ⟨h.sig, g.1.2, h.known, g.1.1, ?_, h.right⟩
   intro l hl
   have := g.2; unfold edgeDelSourceOk at this; rw [hl] at this
   simpa using this
@@ -1058,20 +1087,21 @@ theorem EdgeOkD.guarded {d : Defects} {s : Inst} {room : Nat} {prev : Option Edg
     (hp : ∀ p, prev = some p → edgeKeyEq e.row p = true ∧ p ∈ others) : EdgeOk s room prev e := by
   unfold edgeGuard at g
   simp only [Bool.and_eq_true, List.all_eq_true, Bool.or_eq_true, Bool.not_eq_true', decide_eq_true_eq] at g
-  refine ⟨h.sig, h.known, ?_, ?_⟩
-  · have := g.1; unfold edgeSourceOk at this
-    split at this
+  obtain ⟨⟨ga, gs⟩, go⟩ := g
+  refine ⟨h.sig, h.known, ga, ?_, ?_⟩
+  · unfold edgeSourceOk at gs
+    split at gs
     · next l hl =>
-      simp only [Bool.and_eq_true, decide_eq_true_eq] at this
-      exact ⟨l, hl, this.1, this.2⟩
-    · cases this
+      simp only [Bool.and_eq_true, decide_eq_true_eq] at gs
+      exact ⟨l, hl, gs.1, gs.2⟩
+    · cases gs
   · have hr := h.right
     have hneed : needOn (prev.map (·.key)) e.row.key = RightType.mutateSelf := by
       cases hprev : prev with
       | none => rfl
       | some p =>
         obtain ⟨hk, hm⟩ := hp p hprev
-        rcases g.2 p hm with h1 | h1
+        rcases go p hm with h1 | h1
         · rw [hk] at h1; cases h1
         · simp [needOn, needRight, h1]
     rw [hneed]
